@@ -16,6 +16,7 @@
 From DoitV Require Import Base Dispatch Runner DispatchP DispatchInv RunnerP.
 From DoitV Require Parallel ParallelP.
 From DoitV Require Import Status History StatusP HistoryP Inputs InputsP Kwargs KwargsP.
+From DoitV Require Import Pickle PickleP.
 Open Scope Z_scope.
 
 (* ------------------------------------------------------------------ changed *)
@@ -587,3 +588,60 @@ Example C10_calc_status_nonvacuous :
   st_of x2 5%N = RUpToDate /\
   tr_kw (x_rep x2 1%N) = Some [(arg_dependencies, KFiles [1; 3]%N); (arg_changed, KFiles [3%N])].
 Proof. vm_compute. auto. Qed.
+
+(* ---- the inputs of an action executed in a WORKER PROCESS (Model/Pickle.v; runner `-n N` with processes).
+   A task created at run time by a create_after creator is sent to the worker as a whole pickled Task
+   (runner.JobTask: Task.__getstate__ / pickle.loads), a statically known one as its pickle_safe_dict; the getargs
+   values were put into task.options by the MAIN process (Runner._get_task_args), dep_changed by the status check
+   there.  [kwargs_main t ga] / [kwargs_worker d t ga]: the keyword arguments of the action when the task (state
+   [t], getargs entries [ga] with the values read from the dependency manager) is executed by the main process /
+   sent with the serialisation [d] and executed by the worker; [drop_none] is the code in /repo.
+   Correspondence: harness/c10.py family 'delayed-proc' (implementation-side oracle: the created consumers really go
+   through JobTask under `-n 2`; shapes c10:getargs-not-delivered, c10:consumer-action-failed). *)
+Theorem C10_pickled_task_kwargs : forall t ga, kwargs_worker drop_none t ga = kwargs_main t ga.
+Proof. exact kwargs_worker_main. Qed.
+Print Assumptions C10_pickled_task_kwargs.
+
+(* every getargs value read by the main process reaches the worker's action under its name *)
+Theorem C10_pickled_getargs_delivered : forall t ga k x,
+  NoDup (map fst ga) -> In (k, x) ga -> In k (p_params t) ->
+  In (k, KOpt x) (kwargs_worker drop_none t ga).
+Proof. exact kwargs_worker_getargs. Qed.
+Print Assumptions C10_pickled_getargs_delivered.
+
+(* targets / dependencies / changed in the worker are the task's current targets, file_dep and the dep_changed the
+   status check computed in the main process (names not taken by an option or a getargs entry) *)
+Theorem C10_pickled_meta_args : forall t ga v,
+  (forall k, In k [arg_targets; arg_dependencies; arg_changed] -> ~ In k (map fst ga) /\ ~ In k (map fst (p_defaults t)) /\
+             (forall o, p_options t = Some o -> ~ In k (map fst o))) ->
+  (In (arg_targets, v) (kwargs_worker drop_none t ga) <-> In arg_targets (p_params t) /\ v = KFiles (targets (p_def t))) /\
+  (In (arg_dependencies, v) (kwargs_worker drop_none t ga) <-> In arg_dependencies (p_params t) /\ v = KFiles (file_dep (p_def t))) /\
+  (In (arg_changed, v) (kwargs_worker drop_none t ga) <-> In arg_changed (p_params t) /\ v = KFiles (p_changed t)).
+Proof. exact kwargs_worker_meta. Qed.
+Print Assumptions C10_pickled_meta_args.
+
+(* non-vacuity + the seeded regression: __getstate__ that also resets `options` (init_options in the worker then
+   starts from the params' defaults) loses the getargs value; one that resets dep_changed loses `changed` *)
+Definition pickT : ptask :=
+  {| p_def := {| file_dep := [0%N; 1%N]; targets := [4%N]; uptodate := []; act_values := []; act_result := None |};
+     p_changed := [1%N]; p_options := None; p_defaults := [];
+     p_params := [arg_targets; arg_dependencies; arg_changed; 3%N] |}.
+Example C10_pickled_nonvacuous :
+  kwargs_worker drop_none pickT [(3%N, ASingle (SVal (Some 7%N)))]
+  = [(arg_targets, KFiles [4%N]); (arg_dependencies, KFiles [0%N; 1%N]); (arg_changed, KFiles [1%N]); (3%N, KOpt (ASingle (SVal (Some 7%N))))].
+Proof. vm_compute. reflexivity. Qed.
+Theorem C10_pickled_drop_options_refuted : exists t ga k x,
+  NoDup (map fst ga) /\ In (k, x) ga /\ In k (p_params t) /\ ~ In (k, KOpt x) (kwargs_worker drop_options t ga).
+Proof.
+  exists pickT, [(3%N, ASingle (SVal (Some 7%N)))], 3%N, (ASingle (SVal (Some 7%N))).
+  split; [repeat constructor; simpl; tauto|]. split; [simpl; auto|]. split; [simpl; auto|].
+  vm_compute. intros H. repeat (destruct H as [H|H]; [discriminate H|]). exact H.
+Qed.
+Print Assumptions C10_pickled_drop_options_refuted.
+Theorem C10_pickled_drop_changed_refuted : exists t ga,
+  In arg_changed (p_params t) /\ p_changed t <> [] /\ In (arg_changed, KFiles []) (kwargs_worker drop_changed t ga).
+Proof.
+  exists pickT, [(3%N, ASingle (SVal (Some 7%N)))]. split; [simpl; auto|]. split; [discriminate|].
+  vm_compute. auto.
+Qed.
+Print Assumptions C10_pickled_drop_changed_refuted.
